@@ -102,7 +102,7 @@ def saturating_mul16(a, b):
 def shift_left32(a, offset):
     assert offset >= 0
     assert np.int32(a) == a
-    shifted = a * (1 << offset)
+    shifted = int(a) * (1 << offset)
     if shifted < np.iinfo(np.int32).min:
         return np.int32(np.iinfo(np.int32).min)
     elif shifted > np.iinfo(np.int32).max:
@@ -114,7 +114,8 @@ def shift_left32(a, offset):
 def shift_left16(a, offset):
     assert offset >= 0
     assert np.int16(a) == a
-    shifted = a * (1 << offset)
+    # compute in unbounded precision: a fixed-width NumPy scalar would wrap before the saturation test below
+    shifted = int(a) * (1 << offset)
     if shifted < np.iinfo(np.int16).min:
         return np.int16(np.iinfo(np.int16).min)
     elif shifted > np.iinfo(np.int16).max:
